@@ -970,3 +970,151 @@ Proof.
     destruct (IH (merge_exports acc gl) l' eq_refl (merge_only_strings acc gl Hacc Hstr)) as [H1 H2]. split; auto.
     intros x. rewrite H2, In_merge_str, Hsame, in_app_iff. tauto.
 Qed.
+
+(* ------------------------------------------------------------------------------------------------------------ *)
+(* T3 (one module): executing the statements in order, Griffe's members and CPython's namespace bind the same     *)
+(*    names to related things, given that what each statement imports is already related (the induction step of   *)
+(*    the composition over a dependency order; the relation R is "the member's final target is that value")       *)
+(* ------------------------------------------------------------------------------------------------------------ *)
+Section Step.
+Variable mp : path.
+Variable is_init : bool.
+Variable X : path -> list (string * member).
+Hypothesis X_nodup : forall T, NoDup (map fst (X T)).
+Variable ms : list modsrc.
+Variable t : pytable.
+Variable R : string -> member -> value -> Prop.
+
+Definition rel (n : string) (g : option member) (p : option value) : Prop :=
+  match g, p with
+  | None, None => True
+  | Some m, Some v => R n m v
+  | _, _ => False
+  end.
+
+(* the value `from T import x` reads, as in py_stmt *)
+Definition from_value (pm : pymod) (T : path) (x : string) : pyres value :=
+  if path_eqb T mp then
+    match lookup x (pns pm) with
+    | Some v => POk v
+    | None => if mem_str x (children_of ms T)
+              then match get_py t (T ++ [x]) with Some _ => POk (VMod (T ++ [x])) | None => PErr "not-executed-yet" end
+              else PErr "ImportError"
+    end
+  else py_attr ms t T x.
+
+Hypothesis R_def : forall a k ln, R a (MObj k ln) (VObj k (mp ++ [a])).
+Hypothesis R_from : forall ln T x asn bare a pm v,
+  bind_of mp is_init (SFrom ln T x asn bare) = Some (a, MAlias (T ++ [x]) ln false) ->
+  from_value pm T x = POk v -> R a (MAlias (T ++ [x]) ln false) v.
+Hypothesis R_import : forall ln T a, R a (MAlias T ln false) (VMod T).
+Hypothesis R_star : forall ln T tm n,
+  get_py t T = Some tm ->
+  (In n (py_star_names tm) <-> lookup n (X T) <> None) /\
+  (forall m v, lookup n (X T) = Some m -> py_attr ms t T n = POk v -> R n (MWrap (T ++ [n]) m ln) v).
+
+Lemma py_bind_all_lookup T names : forall ns ns',
+  py_bind_all ms t T names ns = POk ns' ->
+  forall n, (In n names -> exists v, py_attr ms t T n = POk v /\ lookup n ns' = Some v) /\
+            (~ In n names -> lookup n ns' = lookup n ns).
+Proof.
+  induction names as [|k names IH]; intros ns ns' H n; simpl in H.
+  - inversion H; subst. split; [intros []|auto].
+  - destruct (py_attr ms t T k) as [v|e] eqn:Ea; try discriminate.
+    destruct (IH _ _ H n) as [IH1 IH2]. split.
+    + intros [Hk|Hin].
+      * subst k. destruct (in_dec string_dec n names) as [Hin|Hnot]; auto.
+        exists v. split; auto. rewrite (IH2 Hnot). apply lookup_assign_same.
+      * auto.
+    + intros Hnot. rewrite IH2; [|intros Hin; apply Hnot; right; auto].
+      apply lookup_assign_other. intros Heq. apply Hnot. left. auto.
+Qed.
+
+Definition not_all (n : string) : Prop := n <> "__all__".
+
+Lemma step_preserves gm pm pm' s :
+  (forall ln T x asn bare, s = SFrom ln T x asn bare -> bind_of mp is_init s <> None) ->
+  (forall n, not_all n -> rel n (lookup n gm) (lookup n (pns pm))) ->
+  py_stmt ms t mp pm s = POk pm' ->
+  forall n, not_all n -> rel n (lookup n (seq_stmt mp is_init X gm s)) (lookup n (pns pm')).
+Proof.
+  intros Hskip Hinv Hpy n Hn. rewrite (seq_stmt_lookup mp is_init X X_nodup gm s n).
+  destruct s as [ln a k|ln T x asn bare|ln T|ln T asn|ln its|ln its|ln its]; simpl in Hpy.
+  - (* def *)
+    inversion Hpy; subst. simpl. destruct (String.eqb a n) eqn:E.
+    + apply String.eqb_eq in E. subst. rewrite lookup_assign_same. apply R_def.
+    + rewrite lookup_assign_other; [apply Hinv; auto|]. intros Heq. subst. rewrite String.eqb_refl in E. discriminate.
+  - (* from import *)
+    fold (from_value pm T x) in Hpy. destruct (from_value pm T x) as [v|e] eqn:Ev; try discriminate.
+    inversion Hpy; subst. simpl pns.
+    specialize (Hskip ln T x asn bare eq_refl). unfold binds.
+    destruct (bind_of mp is_init (SFrom ln T x asn bare)) as [[a m]|] eqn:Eb; [|contradiction].
+    assert (Ha : a = match asn with Some a0 => a0 | None => x end /\ m = MAlias (T ++ [x]) ln false).
+    { simpl in Eb. destruct (bare && is_init && match asn with None => true | Some _ => false end); try discriminate.
+      destruct (path_eqb _ _); try discriminate. inversion Eb. auto. }
+    destruct Ha as [Ha Hm]. rewrite <- Ha. subst m.
+    destruct (String.eqb a n) eqn:E.
+    + apply String.eqb_eq in E. subst n. rewrite lookup_assign_same. simpl. eapply R_from; eauto.
+    + rewrite lookup_assign_other; [apply Hinv; auto|]. intros Heq. subst. rewrite String.eqb_refl in E. discriminate.
+  - (* wildcard import *)
+    destruct (get_py t T) as [tm|] eqn:Et; try discriminate.
+    destruct (py_bind_all ms t T (py_star_names tm) (pns pm)) as [ns'|e] eqn:Eb; try discriminate.
+    inversion Hpy; subst. simpl pns. unfold binds.
+    destruct (py_bind_all_lookup T _ _ _ Eb n) as [Hin Hout].
+    destruct (R_star ln T tm n Et) as [Hexp Hval].
+    destruct (lookup n (X T)) as [m|] eqn:Ex.
+    + assert (Hn' : In n (py_star_names tm)) by (apply Hexp; congruence).
+      destruct (Hin Hn') as [v [Ha Hl]]. rewrite Hl. simpl. eapply Hval; eauto.
+    + assert (Hn' : ~ In n (py_star_names tm)) by (intros H; apply Hexp in H; congruence).
+      rewrite (Hout Hn'). apply Hinv; auto.
+  - (* import *)
+    destruct (get_py t T) as [tm|]; try discriminate. unfold binds.
+    destruct asn as [a|]; inversion Hpy; subst; simpl.
+    + destruct (String.eqb a n) eqn:E.
+      * apply String.eqb_eq in E. subst. rewrite lookup_assign_same. apply R_import.
+      * rewrite lookup_assign_other; [apply Hinv; auto|]. intros Heq. subst. rewrite String.eqb_refl in E. discriminate.
+    + destruct (String.eqb (hd "" T) n) eqn:E.
+      * apply String.eqb_eq in E. subst. rewrite lookup_assign_same. apply R_import.
+      * rewrite lookup_assign_other; [apply Hinv; auto|]. intros Heq. subst. rewrite String.eqb_refl in E. discriminate.
+  - (* __all__ = ... *)
+    destruct (py_eval_items t (pns pm) its); try discriminate. inversion Hpy; subst.
+    assert (Hb : binds mp is_init X (SSetAll ln its) n = None).
+    { unfold binds. change (bind_of mp is_init (SSetAll ln its)) with (Some ("__all__", MObj KAttr ln)).
+      assert (E : String.eqb "__all__" n = false) by (apply String.eqb_neq; intros H; apply Hn; symmetry; exact H).
+      cbv beta iota. rewrite E. reflexivity. }
+    rewrite Hb. simpl pns. apply Hinv; auto.
+  - destruct (pall pm); try discriminate. destruct (py_eval_items t (pns pm) its); try discriminate.
+    inversion Hpy; subst. simpl. apply Hinv; auto.
+  - destruct (pall pm); try discriminate. destruct (py_eval_items t (pns pm) its); try discriminate.
+    inversion Hpy; subst. simpl. apply Hinv; auto.
+Qed.
+
+Lemma body_preserves body : forall gm pm pm',
+  (forall s ln T x asn bare, In s body -> s = SFrom ln T x asn bare -> bind_of mp is_init s <> None) ->
+  (forall n, not_all n -> rel n (lookup n gm) (lookup n (pns pm))) ->
+  py_body ms t mp pm body = POk pm' ->
+  forall n, not_all n -> rel n (lookup n (fold_left (seq_stmt mp is_init X) body gm)) (lookup n (pns pm')).
+Proof.
+  induction body as [|s body IH]; intros gm pm pm' Hskip Hinv Hpy; simpl in *.
+  - inversion Hpy; subst. auto.
+  - destruct (py_stmt ms t mp pm s) as [pm1|e] eqn:Es; try discriminate.
+    apply (IH (seq_stmt mp is_init X gm s) pm1 pm'); auto.
+    + intros s' ln T x asn bare Hin. apply Hskip. auto.
+    + apply (step_preserves gm pm pm1 s); auto. intros ln T x asn bare Heq. apply (Hskip s ln T x asn bare); auto.
+Qed.
+
+(* with T2: the members Griffe ends up with (visitor + line-number rule) and the namespace CPython ends up with *)
+Theorem module_names_eq_cpython body pm :
+  body_ok mp is_init body ->
+  (forall s ln T x asn bare, In s body -> s = SFrom ln T x asn bare -> bind_of mp is_init s <> None) ->
+  py_body ms t mp (mkPy [] None) body = POk pm ->
+  forall n, not_all n -> ~ is_star_name n ->
+  rel n (lookup n (two_phase mp is_init X body)) (lookup n (pns pm)).
+Proof.
+  intros Hok Hskip Hpy n Hn Hs.
+  rewrite (later_statement_overrides mp is_init X X_nodup body n Hok Hs).
+  apply (body_preserves body [] (mkPy [] None) pm); auto.
+  intros n' _. simpl. exact I.
+Qed.
+
+End Step.
